@@ -1,6 +1,7 @@
 import TongoModel.Tlb.BlockTlb
 /-! The decidable matcher between a regenerated Go type descriptor (`Ty`, translator X1) and a transcribed schema
-(`SType`): same field order, same widths, same constructor tags (the bits `ParseTag` yields equal the bits written in
+(`SType`): same field order BY NAME (the Go field at each position carries the schema's field name, modulo
+snake_case/CamelCase and a small alias table), same widths, same constructor tags (the bits `ParseTag` yields equal the bits written in
 the schema), references in the same places. `TongoProofs/C04.lean` proves once that a match implies
 `encode = specChunk` for every value; `impl_eq_spec_<S>` is then the decided match of `desc_<S>` with the schema. -/
 namespace Tongo.Tlb.Spec
@@ -106,7 +107,8 @@ def agreeField (env : Env) (senv : SEnv) : Nat → FieldTag → Ty → SType →
 def agreeFields (env : Env) (senv : SEnv) : Nat → Fields → SFields → Bool
   | 0, _, _ => false
   | _ + 1, .nil, .nil => true
-  | f + 1, .cons _ ft t rest, .cons _ s srest => agreeField env senv f ft t s && agreeFields env senv f rest srest
+  | f + 1, .cons gn ft t rest, .cons sn s srest =>
+    nameAgrees gn sn && agreeField env senv f ft t s && agreeFields env senv f rest srest
   | _ + 1, _, _ => false
 def agreeCtors (env : Env) (senv : SEnv) : Nat → Ctors → SCtors → Bool
   | 0, _, _ => false
